@@ -4,13 +4,17 @@
 # still 430 pass), then runs the registered quick check against the worktree (RV_REPO) and reports.
 ID=$1; WT=$2; NAME=${3:-$ID-1}
 cd $WT || exit 2
-git diff -- rich > patch.diff
+# the agent's own patch.diff is the truth (worktrees can be disturbed by other agents through the shared stash)
+if [ -s patch.diff ]; then git checkout -q -- rich && git apply patch.diff || { echo "patch.diff does not apply"; exit 2; }
+else git diff -- rich > patch.diff; fi
 [ -s patch.diff ] || { echo "no patch"; exit 2; }
+echo "patch touches: $(grep '^+++ ' patch.diff | tr '\n' ' ')"
 DEMO=$(ls demo_*.py | head -1)
 echo "== demo with patch"; PYTHONPATH=$WT timeout 300 /venv/bin/python $DEMO >/tmp/mut/$NAME.with.log 2>&1; W=$?; echo "exit=$W"
-git stash -q
+# (no `git stash`: the stash is shared by all worktrees of a repository and other agents may be using it)
+git apply -R patch.diff || { echo "cannot reverse patch"; exit 2; }
 echo "== demo without patch"; PYTHONPATH=$WT timeout 300 /venv/bin/python $DEMO >/tmp/mut/$NAME.without.log 2>&1; WO=$?; echo "exit=$WO"
-git stash pop -q
+git apply patch.diff || { echo "cannot re-apply patch"; exit 2; }
 echo "== repo tests with patch"; PYTHONPATH=$WT timeout 900 /venv/bin/python -m pytest -q -p no:cacheprovider --timeout=900 2>&1 | tail -1
 echo "== check $ID quick against the patched tree"
 cd /verif; RV_REPO=$WT timeout 900 /venv/bin/python -B rv/run.py $ID --tier quick --no-evidence > /tmp/mut/$NAME.check.log 2>&1; C=$?
